@@ -302,6 +302,28 @@ pub fn enumerate(tier: Tier) -> Vec<Case> {
         }
     }
 
+    // --- 2a''. the same verdicts inside worker pools of 3, 5, 6, 7 and 12 threads (the prover's
+    // parallel regions split their data by the pool size; exactness must not depend on it)
+    {
+        let picks: Vec<usize> = cases
+            .iter()
+            .enumerate()
+            .filter(|(_, c)| c.name.starts_with('[') && (c.name.ends_with("/base") || c.name.ends_with("r0w0+1")) && (c.name.contains("/First/") || c.name.contains("LastOfFull")))
+            .map(|(i, _)| i)
+            .collect();
+        let pools: Vec<usize> = tier.pick(vec![3, 6], vec![2, 3, 5, 6, 7, 12]);
+        for (k, i) in picks.into_iter().enumerate() {
+            for (j, t) in pools.iter().enumerate() {
+                // quick: every base case in one of the pool sizes, round robin
+                if tier == Tier::Quick && (k + j) % pools.len() != 0 {
+                    continue;
+                }
+                let c = Case { name: format!("pool{}/{}", t, cases[i].name), lay: cases[i].lay.clone(), asg: cases[i].asg.clone() };
+                cases.push(c);
+            }
+        }
+    }
+
     // --- 2b. crafted cases isolating components no single-wire perturbation isolates
     for place in [Place::First, Place::After(3)] {
         // logic.dE alone: with q_c = -1/3 the op identity does not determine E
@@ -608,7 +630,14 @@ pub struct Outcome {
 pub fn run_case(cache: &KeyCache, c: &Case) -> Outcome {
     let keys = cache.get(&c.lay).expect("layout compiles");
     let inst = prog(&c.lay, &c.asg);
-    let (real, snap) = run_real(&keys, &inst, 0);
+    let threads: Option<usize> = c.name.strip_prefix("pool").and_then(|r| r.split('/').next()).and_then(|t| t.parse().ok());
+    let (real, snap) = match threads {
+        Some(t) => {
+            let pool = rayon::ThreadPoolBuilder::new().num_threads(t).build().expect("pool");
+            pool.install(|| run_real(&keys, &inst, 0))
+        }
+        None => run_real(&keys, &inst, 0),
+    };
     let snap = snap.unwrap_or_else(|| inst.run().expect("instance builds"));
     let verdict = m1::decide(&keys.2, &snap);
     // the fast pre-processed form used by the gadget checks must agree
@@ -627,7 +656,7 @@ pub fn run_case(cache: &KeyCache, c: &Case) -> Outcome {
 
 pub fn main(tier: Tier, replay: Option<serde_json::Value>) -> i32 {
     let mut run = Run::new("C05", tier, "model_checking");
-    run.rule = "cases = raw-row layouts (arithmetic selector tuples; custom-gate families alone, pairwise and all at once; first / middle / last-row-of-full-domain placement) x assignments (constructed satisfying, every single-wire perturbation, copy-constraint breaks, size mismatches; instances emitting other selectors than the compiled description); every case is decided by the row model M1 and executed on the real prover+verifier; non-trivial = distinct (layout, assignment) whose M1 verdict was compared with the real outcome".into();
+    run.rule = "cases = raw-row layouts (arithmetic selector tuples; custom-gate families alone, pairwise and all at once; first / middle / last-row-of-full-domain placement) x assignments (constructed satisfying, every single-wire perturbation, copy-constraint breaks, size mismatches; instances emitting other selectors than the compiled description; base cases again inside worker pools of other sizes); every case is decided by the row model M1 and executed on the real prover+verifier; non-trivial = distinct (layout, assignment) whose M1 verdict was compared with the real outcome".into();
     let pp = crate::setup::pp(64);
     let cache = KeyCache::new(pp, b"c05");
     let cases = enumerate(tier);
